@@ -246,14 +246,16 @@ func vc_C13_normalize_contract() {
 // of k records has).
 func vc_C13_ascii_load() {
 	n := 1 + vfCase("triangles", 2)
+	// indentation of the nested lines: none, spaces, a tab, mixed (all are white space to a reader)
+	ind := []string{"", "    ", "\t", " \t "}[vfCase("indent", 4)]
 	lines := []string{"solid verif"}
 	for k := 0; k < n; k++ {
 		t := string(rune('a' + k))
-		lines = append(lines, "facet normal 0 0 1", "outer loop",
-			"vertex $ok:"+t+"0x $ok:"+t+"0y $ok:"+t+"0z",
-			"vertex $ok:"+t+"1x $ok:"+t+"1y $ok:"+t+"1z",
-			"vertex $ok:"+t+"2x $ok:"+t+"2y $ok:"+t+"2z",
-			"endloop", "endfacet")
+		lines = append(lines, ind+"facet normal 0 0 1", ind+"outer loop",
+			ind+ind+"vertex $ok:"+t+"0x $ok:"+t+"0y $ok:"+t+"0z",
+			ind+ind+"vertex $ok:"+t+"1x $ok:"+t+"1y $ok:"+t+"1z",
+			ind+ind+"vertex $ok:"+t+"2x $ok:"+t+"2y $ok:"+t+"2z",
+			ind+"endloop", ind+"endfacet")
 	}
 	lines = append(lines, "endsolid verif")
 	path, size := vfTextFile("c13ascii.stl", lines...)
